@@ -298,6 +298,20 @@ theorem C14_kv2_current (cfold : Char → List Char)
   C14_kv2 _ _ C14_gen_kv2_tables.1 C14_gen_kv2_tables.2.1 C14_gen_kv2_tables.2.2.1
     C14_gen_kv2_tables.2.2.2 cfold hf g flat cull hne hwf hu hnest
 
+/-! ## history independence -/
+
+/-- **No state.** In any session (calls made one after the other), the result of a call is the
+result of that call made alone: it does not depend on the calls before it, and later calls do not
+change it.  Trivial for the model (pure functions); the obligation is on the tie — the session
+search reports any history dependence of the implementation as a failing session. -/
+theorem C14_session_pure (E : Tok.Tables) (T : Tables) (cfold : Char → List Char)
+    (pre post : List Kv2.Call) (c : Kv2.Call) :
+    (Kv2.runSession E T cfold (pre ++ c :: post))[pre.length]? = some (Kv2.runCall E T cfold c) ∧
+    (Kv2.runSession E T cfold (pre ++ c :: post)).take pre.length = Kv2.runSession E T cfold pre := by
+  constructor
+  · simp [Kv2.runSession]
+  · simp [Kv2.runSession, List.map_append, List.take_append]
+
 /-! ## non-vacuity -/
 
 /-- a graph with a self reference, a mutual cycle, NULL, a stub, a scalar matrix, an empty array,
